@@ -274,6 +274,7 @@ pub fn small_histories() -> Vec<Vec<String>> {
     let pool = [
         "null", "true", "1", "\"s\"", "[]", "[null]", "[1]", "[true]", "[2,\"a\"]", "[1,null]", "{}",
         "{\"a\":1}", "{\"a\":null}", "[{\"a\":1},{}]", "[[]]", "{\"a\":[]}", "[[1],[\"a\"]]", "[{\"a\":{}}]", "[{\"a\":{}},{}]",
+        "[1,\"a\",true]", "[null,\"a\"]",
     ];
     let mut out = Vec::new();
     for a in pool {
@@ -434,6 +435,16 @@ pub fn c12(r: &mut Rng, sz: &Sizes, out: &mut Vec<String>) {
             out.push(format!("ticks_infer\t{}", crate::wire::hex(t.as_bytes())));
         }
     }
+    // every position a nested value can take (first/last/middle element, member value, array of objects ...)
+    for ctx in CONTEXTS {
+        for core in CORES {
+            for k in [1usize, 2, 3, 5, 8, 12, 16, 20, 24] {
+                let t = nest(ctx, core, k);
+                out.push(format!("ticks_inferv\t{}", crate::wire::hex(t.as_bytes())));
+                out.push(format!("ticks_infer\t{}", crate::wire::hex(t.as_bytes())));
+            }
+        }
+    }
     for k in 1..=9 {
         let mut dbl = String::from("1");
         for _ in 0..k {
@@ -462,6 +473,21 @@ pub fn c12(r: &mut Rng, sz: &Sizes, out: &mut Vec<String>) {
     for n in [10, 100, 1000] {
         out.push(format!("allocs\tsources\t{n}"));
     }
+}
+
+/// One-hole contexts (`@` is the hole) covering every position a nested value can take: first, last and
+/// middle element, member value, element of an array of objects in first / later position, below a
+/// one-element array. Nesting a context `k` times gives a document of size O(k).
+pub const CONTEXTS: &[&str] = &[
+    "[@,1]", "[1,@]", "[1,@,\"x\"]", "[\"x\",@]", "[@]", "{\"k\":@}", "{\"a\":1,\"k\":@}",
+    "[{\"k\":@},{\"k\":1}]", "[{\"k\":1},{\"k\":@}]", "[{\"k\":1},{\"j\":@}]", "[[@],[1]]", "[[1],[@]]",
+    "[null,@]", "[@,null]", "[[],@]", "{\"a\":[@,true],\"b\":[]}",
+];
+pub const CORES: &[&str] = &["1", "[1,\"x\"]", "{}", "[]", "[{\"a\":1},{\"b\":2}]"];
+
+pub fn nest(ctx: &str, core: &str, k: usize) -> String {
+    let (pre, post) = ctx.split_once('@').unwrap();
+    format!("{}{}{}", pre.repeat(k), core, post.repeat(k))
 }
 
 /// valid texts and their single-character corruptions / prefixes
@@ -494,8 +520,82 @@ fn malformed(r: &mut Rng, base: &str, out: &mut Vec<String>, limit: usize) {
     }
 }
 
+/// Lexeme-directed families: the places where a lexer decides character by character — the four hex
+/// digits of `\\u`, the character after a backslash, raw characters inside a string, the number grammar,
+/// the literal names — enumerated exhaustively over alphabets that contain the near-misses (`+`, `-`,
+/// space, non-ASCII digits/letters, upper case), plus every single-character substitution and insertion
+/// over printable ASCII in texts that contain every lexeme kind.
+pub fn lexeme_corpus(thorough: bool) -> Vec<String> {
+    let mut t: Vec<String> = Vec::new();
+    let hex_alpha: Vec<char> = if thorough { "09aFgG+- \"\\\u{e9}x.u\u{1}\u{663}".chars().collect() } else { "09aFg+- \"\\\u{e9}x".chars().collect() };
+    for a in &hex_alpha {
+        for b in &hex_alpha {
+            for c in &hex_alpha {
+                for d in &hex_alpha {
+                    t.push(format!("\"\\u{a}{b}{c}{d}\""));
+                }
+            }
+        }
+    }
+    let mut any: Vec<char> = (0u32..0x80).filter_map(char::from_u32).collect();
+    any.extend(['\u{80}', '\u{e9}', '\u{2028}', '\u{1F600}', '\u{663}', '\u{ff11}']);
+    for c in &any {
+        t.push(format!("\"\\{c}\""));
+        t.push(format!("[\"a\\{c}b\",1]"));
+        t.push(format!("\"a{c}b\""));
+        t.push(format!("{{\"k{c}\":1}}"));
+        t.push(format!("{{\"\\{c}\":1}}"));
+        t.push(format!("1{c}"));
+        t.push(format!("{c}1"));
+        t.push(format!("[1{c}2]"));
+        t.push(format!("-{c}"));
+        t.push(format!("1.{c}"));
+        t.push(format!("1e{c}1"));
+        t.push(format!("0{c}"));
+    }
+    let num_alpha: Vec<char> = "01-+.eE".chars().collect();
+    let nmax = if thorough { 6 } else { 5 };
+    let mut cur: Vec<String> = vec![String::new()];
+    for len in 1..=nmax {
+        let mut next = Vec::new();
+        for p in &cur {
+            for c in &num_alpha {
+                let q = format!("{p}{c}");
+                t.push(q.clone());
+                if len <= 4 {
+                    t.push(format!("[{q},{q}]"));
+                }
+                next.push(q);
+            }
+        }
+        cur = next;
+    }
+    let printable: Vec<char> = (0x20u32..0x7f).filter_map(char::from_u32).collect();
+    let seeds = [
+        "true", "false", "null", "[true,false,null]",
+        "{\"a\\u00e9\\n\":[-1.5e+3,true,false,null,\"x\"]}",
+        "[ 10.25E-7 , \"\\\\\\/\\b\\f\\r\\t\\\"\" ]",
+    ];
+    for sd in seeds {
+        let chars: Vec<char> = sd.chars().collect();
+        for i in 0..=chars.len() {
+            for c in &printable {
+                if i < chars.len() {
+                    let mut v = chars.clone();
+                    v[i] = *c;
+                    t.push(v.into_iter().collect());
+                }
+                let mut v = chars.clone();
+                v.insert(i, *c);
+                t.push(v.into_iter().collect());
+            }
+        }
+    }
+    t
+}
+
 pub fn text_corpus(r: &mut Rng, sz: &Sizes, thorough: bool) -> Vec<String> {
-    let mut texts: Vec<String> = Vec::new();
+    let mut texts: Vec<String> = lexeme_corpus(thorough);
     // exhaustive short strings over a JSON alphabet
     let alpha: Vec<char> = "\"\\ua10-.e+ \n\r\t[]{},:trnl\u{e9}\u{1}/Ef".chars().collect();
     let maxlen = if thorough { 4 } else { 3 };
@@ -639,6 +739,22 @@ pub fn c05(r: &mut Rng, sz: &Sizes, out: &mut Vec<String>) {
     }
     for d in docs(r, sz) {
         out.push(format!("inferv\t{}", hex_doc(&d, r.below(4))));
+    }
+    // nesting in every position: an algorithm that re-converts a child once per level is exponential in
+    // exactly one of these families and polynomial in the others
+    for ctx in CONTEXTS {
+        let per_level = ctx.matches('[').count() + ctx.matches('{').count();
+        for core in CORES {
+            for k in [30usize, 60, 120] {
+                let t = nest(ctx, core, k);
+                if k * per_level + 3 <= 120 {
+                    out.push(format!("inferv\t{}", crate::wire::hex(t.as_bytes())));
+                }
+                if k * per_level + 3 <= 250 {
+                    out.push(format!("inferdoc\t{}", crate::wire::hex(t.as_bytes())));
+                }
+            }
+        }
     }
 }
 
